@@ -93,9 +93,6 @@ func (p *parser) parseBinOp(left MetricExpr, minPrecedence int) (MetricExpr, err
 			if v, ok := left.(*LiteralExpr); ok {
 				return nil, errors.Errorf("unexpected left scalar %v in a logical operation %s", v.Value, op)
 			}
-			if v, ok := right.(*LiteralExpr); ok {
-				return nil, errors.Errorf("unexpected right scalar %v in a logical operation %s", v.Value, op)
-			}
 		}
 
 		for {
@@ -115,7 +112,36 @@ func (p *parser) parseBinOp(left MetricExpr, minPrecedence int) (MetricExpr, err
 			}
 		}
 
+		if op.IsLogic() {
+			// Check the whole right operand: a number followed by a tighter operation
+			// (`a or 2 / b`) is a vector, a number alone or an operation on numbers is not.
+			if v, ok := scalarOperand(right); ok {
+				return nil, errors.Errorf("unexpected right scalar %v in a logical operation %s", v, op)
+			}
+		}
+
 		left = &BinOpExpr{Left: left, Op: op, Modifier: modifier, Right: right}
+	}
+}
+
+// scalarOperand reports whether operand consists of number literals only and returns the first of them.
+func scalarOperand(e Expr) (float64, bool) {
+	switch e := e.(type) {
+	case *LiteralExpr:
+		return e.Value, true
+	case *ParenExpr:
+		return scalarOperand(e.X)
+	case *BinOpExpr:
+		v, ok := scalarOperand(e.Left)
+		if !ok {
+			return 0, false
+		}
+		if _, ok := scalarOperand(e.Right); !ok {
+			return 0, false
+		}
+		return v, true
+	default:
+		return 0, false
 	}
 }
 
